@@ -18,7 +18,11 @@ for d in sorted(glob.glob(ROOT + '/seeded/*')):
         print(f"{sid:48s} {conf[:9]:9s} {'retired (was ' + status + ')':32s}")
         continue
     line = ''
-    if os.path.exists(out + '/stdout.txt'):
+    head = open(out + '/head.txt').read().strip() if os.path.exists(out + '/head.txt') else '?'
+    if os.path.exists(out + '/STALE-PATCH'):
+        status = 'STALE-PATCH'
+        m['detection'] = dict(status=status, how=f'patch.diff does not apply to /repo {head}: rebase it', cmd='tools/run_seeded.sh ' + sid)
+    elif os.path.exists(out + '/stdout.txt'):
         so = open(out + '/stdout.txt').read()
         se = open(out + '/stderr.txt').read().strip().splitlines()
         viol = [l for l in so.splitlines() if l.startswith('VIOLATION')]
@@ -41,7 +45,7 @@ for d in sorted(glob.glob(ROOT + '/seeded/*')):
         prev = m.get('detection', {})
         if prev.get('how', '').find('was MISSED') >= 0 and status.startswith('caught'):
             how += ' | history: ' + prev['how']
-        m['detection'] = dict(status=status, how=how, cmd='tools/run_seeded.sh ' + sid)
+        m['detection'] = dict(status=status, how=how, cmd='tools/run_seeded.sh ' + sid, repo_head=head)
         line = summary
     json.dump(m, open(mp, 'w'), indent=1)
     print(f"{sid:48s} {conf[:9]:9s} {status:32s} {line[-90:]}")
